@@ -27,7 +27,8 @@ RULE = ("(A) callables: signature (sigmodel: positional-only / positional-or-key
         "classes: generated hierarchies of the C03 family (shapes plain/slots/dataclass/no-__init__, subclasses adding "
         "constructors/__new__, abstract methods) with all contracts satisfied, against their twin rendered without "
         "any contract and without DBC: invariant(...)(cls) is cls, same outcome of every operation of a generated "
-        "history (construction with arguments, calls, property access, attribute assignment), same bodies run, same "
+        "history (construction with arguments, calls, property access, attribute assignment; bodies may call public "
+        "methods of the same object again), same bodies run, same "
         "abstractness. non-trivial = (A) foreign decorator between two contracts, or keyword-only/positional-only/"
         "variadic shape, or async, or a raising body; (B) a sub-class with its own constructor or an abstract member; "
         "distinct = hash of the case.")
@@ -243,6 +244,19 @@ def st_class_case(draw):
         case["ops"].append({"op": "new", "cls": ci, "k": 20 + ci, "args": {"x": "a:kx"}})
         case["ops"].append({"op": "new", "cls": ci, "k": 30 + ci, "args": {"x": "a:px"}, "positional": ["x"]})
         case["ops"].append({"op": "new", "cls": ci, "k": 40 + ci, "args": {"x": "a:px", "y": "a:ky"}, "positional": ["x"]})
+    # bodies that call a public method of the same object again before they return (nested calls of checked methods)
+    if draw(st.booleans()):
+        scripts = []
+        for c in prog["classes"]:
+            for m in c["members"]:
+                if m["kind"] == "method" and not m["name"].startswith("_") and draw(st.booleans()):
+                    target = draw(st.sampled_from([x["name"] for x in prog["classes"][0]["members"]
+                                                   if x["kind"] == "method" and not x["name"].startswith("_")] or ["m"]))
+                    scripts.append([["body", "%s.%s" % (c["name"], m["name"])],
+                                    [{"op": "call", "k": 0, "m": target, "args": {"x": "a:nested"}}]])
+        if scripts:
+            case["scripts"] = scripts
+            case["fuel"] = draw(st.integers(1, 3))
     case["part"] = "B"
     return case
 
@@ -278,8 +292,10 @@ def check_class(ctx, case):
                          dict(case, truth={}), "inspect.isabstract(%s) = %s, the undecorated twin says %s\n%s" % (
                              c["name"], inspect.isabstract(cls), inspect.isabstract(cls2), l1.text[-2500:]))
                 return
-        log1, outs1, _ = core.in_fresh_thread(lambda: RUN.execute(l1, ops, truth))
-        log2, outs2, _ = core.in_fresh_thread(lambda: RUN.execute(l2, ops, truth))
+        scripts = {tuple(k): v for k, v in case.get("scripts", [])} or None
+        fuel = case.get("fuel", 0)
+        log1, outs1, _ = core.in_fresh_thread(lambda: RUN.execute(l1, ops, truth, scripts=scripts, fuel=fuel))
+        log2, outs2, _ = core.in_fresh_thread(lambda: RUN.execute(l2, ops, truth, scripts=scripts, fuel=fuel))
     for i, (a, b) in enumerate(zip(outs1, outs2)):
         pa = norm_out(a)
         pb = norm_out(b)
@@ -298,6 +314,8 @@ def check_class(ctx, case):
     ctx.count("classes:shape:" + str(prog["classes"][0].get("shape")))
     if case.get("abstract"):
         ctx.count("classes:with-abstract-member")
+    if case.get("scripts"):
+        ctx.count("classes:bodies-calling-methods-of-the-same-object")
     ctx.case(["B", prog, [{k: v for k, v in o.items() if k != "truth"} for o in ops]], nt, sample=lambda: {
         "classes": [(c["name"], c["bases"], c.get("shape"), [m["name"] + ":" + m["kind"] for m in c["members"]]) for c in prog["classes"]],
         "ops": [{k: v for k, v in o.items() if k != "truth"} for o in ops][:8]})
